@@ -227,11 +227,13 @@ def fire (fx : Bool) (s : St) : Lbl → Option St
     if s.kC = .fin ∧ True then
       some { s with connCloses := s.connCloses + 1, posted := s.posted ++ [.remove], mutex := false, kC := .out } else none
 
-/-- `NewClientSession` has posted OnSessionCreate; `Handle()` started the three goroutines -/
-def init : St :=
+/-- a connection accepted at time `t`: `NewClientSession` has posted OnSessionCreate, `Handle()` started the three goroutines -/
+def initAt (t : Nat) : St :=
   { status := .start, closed := false, mutex := false, connCloses := 0, posted := [.add], sendq := 0, writes := 0,
-    now := 0, lastHb := 0, tickAt := hbMs, rd := .top, rdC := .out, wr := .sel, wrC := .out, hb := .sel, hbC := .out,
+    now := t, lastHb := 0, tickAt := t + hbMs, rd := .top, rdC := .out, wr := .sel, wrC := .out, hb := .sel, hbC := .out,
     kWant := 0, kC := .out, arrived := [] }
+
+def init : St := initAt 0
 
 /-- run a schedule; `none` if some label was not enabled -/
 def runL (fx : Bool) (s : St) : List Lbl → Option St
